@@ -39,6 +39,8 @@ def rand_features(r, n):
             attrs.append(("flag", []))
         r.shuffle(attrs)
         attrs.sort(key=lambda kv: not kv[1])        # a valueless flag first would switch the line to the 'key value' style
+        if attrs and not attrs[0][1]:
+            attrs = []                              # ... and so would a line whose only attribute is the flag
         out.append({"seqid": r.choice(["chr1", "chr2"]), "source": r.choice(["s1", "s2"]),
                     "ftype": r.choice(["gene", "mRNA", "exon"]), "start": r.randrange(1, 1000),
                     "end": r.randrange(1000, 2000), "strand": r.choice("+-"), "attrs": attrs})
